@@ -169,7 +169,7 @@ func main() {
 			"v1_payouts_checked", "v1_consensus_accepted", "v1_consensus_rejected_controls", "v1_revisions_checked", "v1_renewals_checked", "v1_paybycontract_insufficient",
 			"overflow_family_cases",
 			"appends_with_a_price_table_tip_past_expiration", "revisions_of_a_contract_at_the_last_revision_number", "v1_paybycontract_on_the_last_revision_number",
-			"formations_against_a_stale_price_table_with_a_proof_height_already_reached", "v1_revisions_with_renter_missed_below_valid", "refreshes_requested_past_the_proof_height",
+			"formations_against_a_stale_price_table_with_a_proof_height_already_reached", "v1_rhp3_renewals_ending_at_the_hosts_height", "v1_revisions_with_renter_missed_below_valid", "refreshes_requested_past_the_proof_height",
 		},
 	})
 }
